@@ -8,10 +8,12 @@ def run(v, tier, seed, g):
     try:
         restore = tr_jit.generate()
     except tr_jit.TranslationError:
-        restore = True      # the gate has recorded the failed translation; the schedules below are the search for a failing input
+        restore = (True, True)      # the gate has recorded the failed translation; the schedules below are the search for a failing input
+    atomic = restore[1]
     n = 160 if tier == "quick" else 4000
-    specs = jitconf.schedules(seed, n // 2, faults=True, kills=True, nreq=(2, 5))
-    specs += jitconf.schedules(seed + 1, n // 2, faults=True, kills=False, nreq=(3, 6))
+    # with atomic publication of the marker a failure is injected at the log write and at the publication too
+    specs = jitconf.schedules(seed, n // 2, faults=True, kills=True, nreq=(2, 5), window=atomic)
+    specs += jitconf.schedules(seed + 1, n // 2, faults=True, kills=False, nreq=(3, 6), window=atomic)
     runs, errs = jitconf.run_real(specs)
     for e in errs:
         v.oblige(False)
@@ -22,7 +24,6 @@ def run(v, tier, seed, g):
         model = []
         v.oblige(False)
         v.violation("coq-model", str(e), {}, no_input=True)
-    jitconf.compare(v, runs, model, "C15")
     nontriv = set()
     kinds = {"fault": 0, "kill": 0}
     for r in runs:
@@ -43,19 +44,33 @@ def run(v, tier, seed, g):
             if r["fs"]["c"] and not r["fs"]["cached"] and all(o != "Running" for o in r["outcomes"]) \
                     and r["outcomes"][-1] == "RaisedBuild":
                 bad.append("lock file still present after the last build failed")
+        # only a request whose own build was made to fail may raise a build error
+        for pid, o in enumerate(r["outcomes"]):
+            if o in ("RaisedBuild", "RaisedNotFound") and not any(e[0] == "Step" and e[1] == pid and e[2] == "Fault" for e in r["events"]):
+                bad.append(f"request {pid} raised {(r.get('errors') or {}).get(pid, o)} although nothing failed in it")
+                break
         v.oblige(not bad)
         if bad:
             v.violation("c15:" + bad[0][:40], bad[0], {"schedule": r["spec"], "events": evs, "outcomes": r["outcomes"],
                                                        "handlers_swapped": r["swapped"], "fs": r["fs"]})
         elif len(v.samples) < 3 and any("Fault" in e or "Kill" in e for e in evs):
             v.samples.append({"events": evs[:40], "outcomes": r["outcomes"], "fs": r["fs"]})
-    # the window the safety theorem excludes: a failure while the build log is written into the
-    # already created marker.  Scripted: builder 0 up to the log write, fault, rename; builder 1
-    # starts compiling; request 2 sees the stale marker.
-    script = [("spawn",), (0, "Normal"), (0, "Normal"), (0, "Normal"), (0, "Normal"), (0, "Normal"), (0, "Fault"), (0, "Normal"),
-              ("spawn",), (1, "Normal"), (1, "Normal"), (1, "Normal"),
-              ("spawn",), (2, "Normal"), (2, "Normal"), (2, "Normal")]
+    # the property on the real runs is reported first (concrete schedules); then the conformance with the model
+    jitconf.compare(v, runs, model, "C15")
+    # the window an empty-then-filled marker opens: a failure while the build log is written.  Scripted: builder 0 up
+    # to the log write, fault, rename; builder 1 starts compiling; request 2 polls the marker.
+    if atomic:
+        script = [("spawn",), (0, "Normal"), (0, "Normal"), (0, "Normal"), (0, "Normal"), (0, "Fault"), (0, "Normal"),
+                  ("spawn",), (1, "Normal"), (1, "Normal"), (1, "Normal"),
+                  ("spawn",), (2, "Normal"), (2, "Normal"), (2, "Normal")]
+    else:
+        script = [("spawn",), (0, "Normal"), (0, "Normal"), (0, "Normal"), (0, "Normal"), (0, "Normal"), (0, "Fault"), (0, "Normal"),
+                  ("spawn",), (1, "Normal"), (1, "Normal"), (1, "Normal"),
+                  ("spawn",), (2, "Normal"), (2, "Normal"), (2, "Normal")]
     wruns, werrs = jitconf.run_real([{"seed": 1, "nreq": 3, "faults": True, "kills": False, "window": True, "script": script}])
+    v.oblige(bool(wruns))
+    if not wruns:
+        v.violation("scheduler-run", "the scripted log-write failure did not run: " + "; ".join(werrs)[:300], {}, no_input=True)
     if wruns:
         try:
             wmodel = jitconf.run_model(wruns, restore)
@@ -63,10 +78,13 @@ def run(v, tier, seed, g):
         except Exception as e:  # noqa: BLE001
             v.violation("coq-model", str(e), {}, no_input=True)
         r = wruns[0]
-        if "LoadedPartial" in r["outcomes"]:
-            v.violation("c15-marker-window", "a failure while writing the build log into the already created marker (e.g. ENOSPC) leaves the marker behind: "
+        faulted = any(e[0] == "Step" and e[2] == "Fault" for e in r["events"])
+        bad = "LoadedPartial" in r["outcomes"] or (r["fs"]["cached"] and r["fs"]["so"] != "SoComplete") or not faulted
+        v.oblige(not bad)
+        if bad:
+            v.violation("c15-marker-window", "a failure while the build log is written for the ready marker (e.g. ENOSPC) leaves the marker behind: "
                         "the lock is released, the next builder rewrites the shared object under a present marker and a third request loads it half-written; "
-                        "every later build of this module then fails at open(marker,'x')",
+                        "every later build of this module then fails at the marker" if faulted else "the scripted failure at the log write was not injected",
                         {"events": [jitconf.ev(e) for e in r["events"]], "outcomes": r["outcomes"], "fs": r["fs"]})
     if not g["ok"] and not v.violations and not v.known_hits:
         v.violation("gate", "proof obligations no longer check: " + "; ".join(g["broken"]), {"broken": g["broken"]}, no_input=True)
@@ -76,9 +94,9 @@ def run(v, tier, seed, g):
                             "POSIX atomicity of open('x') / rename; loader replaced by a content check", "tr_jit.py"],
            "evaluations": len(runs), "distinct_nontrivial": len(nontriv), "injected": kinds,
            "states": len(nontriv), "transitions": sum(len(r["events"]) for r in runs), "traces_validated_against_impl": len(runs),
-           "rule": "random interleavings of 2-6 requests with faults at code generation / compile start / compile end and kills at any stop; the window between creating the marker and returning is excluded from the safety theorem (refuted there: marker_window_refuted) and from the injected faults",
+           "rule": "random interleavings of 2-6 requests with faults at code generation / compile start / compile end / log write / marker publication and kills at any stop; plus the scripted log-write failure that used to poison the cache",
            "axioms_under_property_theorems": g.get("axioms", [])}
-    return v.finish("proof", cov, ["a fault while writing the build log into the already created marker (e.g. ENOSPC) is outside the proved safety statement and recorded as a known finding"])
+    return v.finish("proof", cov, ["kill = the process disappears between two file-system calls (no torn writes of the marker: it is published by one rename)"])
 
 
 def replay(v, payload):
